@@ -253,8 +253,10 @@ def r14_3(prog: Program, rep):
         raise AnalysisError("CommitGraph._parse_extra_edges not found")
     from sa.consts import Folder
     F = Folder(prog, m)
-    scale = [F.try_fold(x.right) for x in ast.walk(rd.node) if isinstance(x, ast.BinOp) and isinstance(x.op, ast.Mult)
-             and isinstance(x.left, ast.Name) and x.left.id == "index"]
+    local = {s_.targets[0].id: s_.value for s_ in ast.walk(rd.node) if isinstance(s_, ast.Assign) and isinstance(s_.targets[0], ast.Name)}
+    FL = Folder(prog, m, local)          # the slot size may sit in a local (`edge_size = struct.calcsize('>L')`)
+    scale = [FL.try_fold(x.right if isinstance(x.left, ast.Name) and x.left.id == "index" else x.left) for x in ast.walk(rd.node)
+             if isinstance(x, ast.BinOp) and isinstance(x.op, ast.Mult) and any(isinstance(y, ast.Name) and y.id == "index" for y in (x.left, x.right))]
     stored = [x for x in ast.walk(w.node) if isinstance(x, ast.BinOp) and isinstance(x.op, ast.BitOr) and "GRAPH_EXTRA_EDGES_NEEDED" in norm(x.left)]
     unit_ok = False
     detail = "no `GRAPH_EXTRA_EDGES_NEEDED | <index>` expression in the writer"
@@ -653,7 +655,40 @@ def r14_11(prog: Program, rep):
            "an empty map means 'every packed ref is known not to be a tag': get_peeled returns the tag object itself for an annotated tag", f.node.lineno)
 
 
+def r14_12(prog: Program, rep):
+    """A commit graph must be CLOSED under the parent relation: the format cannot name a parent outside the graph (the slot
+    holds GRAPH_PARENT_MISSING, which readers take for "no parent").  In generate_commit_graph every commit whose parents are
+    not all in the commit map is removed from the map before the entries are built: a removal (pop/del) from the map that is
+    control dependent on a `parent not in map` test, and every path to the entry-building append passes the filter."""
+    m = prog.module("dulwich/commit_graph.py")
+    f = m.funcs.get("generate_commit_graph")
+    if f is None:
+        raise AnalysisError("commit_graph.generate_commit_graph not found")
+    g = cfg_of(prog, f)
+    maps = {n.ast.target.id if isinstance(n.ast, ast.AnnAssign) else n.ast.targets[0].id for n in g.nodes.values()
+            if n.kind == "stmt" and isinstance(n.ast, (ast.Assign, ast.AnnAssign)) and isinstance(getattr(n.ast, "value", None), ast.Dict)
+            and isinstance(n.ast.target if isinstance(n.ast, ast.AnnAssign) else n.ast.targets[0], ast.Name)
+            and "commit" in (n.ast.target.id if isinstance(n.ast, ast.AnnAssign) else n.ast.targets[0].id)}
+    if not maps:
+        raise AnalysisError("generate_commit_graph: the commit map (a dict named *commit*) not found")
+    tests = [x for x in ast.walk(f.node) if isinstance(x, ast.Compare) and len(x.ops) == 1 and isinstance(x.ops[0], ast.NotIn)
+             and isinstance(x.comparators[0], ast.Name) and x.comparators[0].id in maps and "parent" in norm(x.left)]
+    removals = [i for i, n in g.nodes.items() for c in node_calls(n) if isinstance(c.func, ast.Attribute) and c.func.attr == "pop"
+                and isinstance(c.func.value, ast.Name) and c.func.value.id in maps]
+    removals += [i for i, n in g.nodes.items() if n.kind == "stmt" and isinstance(n.ast, ast.Delete) and any(
+        isinstance(t, ast.Subscript) and isinstance(t.value, ast.Name) and t.value.id in maps for t in n.ast.targets)]
+    emits = [i for i, n in g.nodes.items() for c in node_calls(n) if isinstance(c.func, ast.Attribute) and c.func.attr == "append" and "entries" in norm(c.func.value)]
+    if not emits:
+        raise AnalysisError("generate_commit_graph: graph.entries.append not found")
+    ok = bool(tests) and bool(removals) and all(r_ < min(emits) or g.nodes[r_].line < g.nodes[min(emits, key=lambda e: g.nodes[e].line)].line for r_ in removals)
+    rep.ob("R14.12", m.rel, f.qual, "commits whose parents are not all in the graph are dropped before the entries are built (closed under parents)", ok,
+           "a parent outside the graph is written as GRAPH_PARENT_MISSING = 'no parent': a graph for the ref targets only (write_commit_graph(reachable=False)) "
+           "or across a shallow boundary shows commits with fewer parents than they have, and every ancestry walk that consults it stops there",
+           (tests[0].lineno if tests else f.node.lineno))
+
+
 def run(prog: Program, rep, tier="quick"):
+    rep.rule("R14.12", "the generated commit graph is closed under the parent relation (no existing parent is encoded as GRAPH_PARENT_MISSING)")
     rep.rule("R14.9", "SAME CLOSURE: the graph provider includes the starting trees and excludes the whole ancestry of the excluded commits, as bitmaps do")
     rep.rule("R14.10", "a commit bitmap is written only when the pack holds everything the commit reaches (objects without a position are reported, not dropped)")
     rep.rule("R14.11", "peeled values belong to the packed value: loose override seen first, stale entries dropped, no trait = unknown, trait not claimed for unknown tags")
@@ -678,6 +713,11 @@ def run(prog: Program, rep, tier="quick"):
     r14_9(prog, rep)
     r14_10(prog, rep)
     r14_11(prog, rep)
+    r14_12(prog, rep)
+    from rules import c16 as _c16
+    from sa.common import share as _share
+    _share(rep, lambda: _c16.r16_12(prog, rep), "R14.13", lambda o: True,
+           "packing refs keeps symbolic refs symbolic (shared with R16.12): a packed line would freeze the ref at its current target")
     from sa.common import share
     from rules import c10
     share(rep, lambda: c10.r10_8(prog, rep), "R14.8", lambda o: True,
